@@ -1,23 +1,69 @@
 //@unit cond
 //@props C16
-// U-cond: the truth value of a condition (src/expression.rs eval_condition): the closure applied
-// to the parsed number is extracted as a function of its own; "non-zero" is the statement's word.
-//@assume the surrounding text handling of eval_condition (strip_prefix/strip_suffix of `{{ }}`, eval_str, str::parse::<f32>) is not under contract here; the expression evaluator is U-expr
+// U-cond: the truth value of a condition (src/expression.rs eval_condition): a condition whose value
+// is a number is true exactly when THAT NUMBER is non-zero ("non-zero" is the statement's word) - the
+// number itself, not its 3-decimal rendering.
+//@assume tokenize + evaluate are a deterministic partial function of the text and the context (value_spec; U-expr proves evaluate against the semantics); one_number is as in U-expr (a number, or a list holding exactly one number); the `{{ }}` stripping (strip_prefix / strip_suffix) is abstracted as strip_braces; rendering + str::parse::<f32> of a non-numeric value are uninterpreted
 use vstd::prelude::*;
 //@prelude fmt_macro
 verus! {
 //@prelude std_specs r32
 
-//@rewrite f32
+pub enum SvgdxError { ParseError(String), Other }
+pub type Result<T> = core::result::Result<T, SvgdxError>;
+#[verifier::external_body] pub struct Ctx { _p: u8 }
+#[verifier::external_body] pub struct ExprValue { _p: u8 }
+#[verifier::external_body] pub struct Token { _p: u8 }
+#[verifier::external_body] pub struct ParseFloatError { _p: u8 }
+
+/// the value of the expression text in the context, when it has one
+pub uninterp spec fn value_spec(text: Seq<char>, ctx: Ctx) -> Option<ExprValue>;
+/// the numeric reading of a value (U-expr: as_num)
+pub uninterp spec fn num_of(v: ExprValue) -> Option<real>;
+pub uninterp spec fn tokens_of(text: Seq<char>) -> Option<Seq<Token>>;
+pub uninterp spec fn eval_tokens(t: Seq<Token>, ctx: Ctx) -> Option<ExprValue>;
+pub uninterp spec fn braces_stripped(text: Seq<char>) -> Option<Seq<char>>;
+
+#[verifier::external_body]
+pub fn tokenize(input: &str) -> (r: Result<Vec<Token>>)
+    ensures (match tokens_of(input@) { Some(t) => r is Ok && r->Ok_0@ == t, None => r is Err })
+{ unimplemented!() }
+#[verifier::external_body]
+pub fn evaluate(tokens: Vec<Token>, context: &Ctx) -> (r: Result<ExprValue>)
+    ensures (match eval_tokens(tokens@, *context) { Some(v) => r == Ok::<ExprValue, SvgdxError>(v), None => r is Err })
+{ unimplemented!() }
+/// R-andthen: `tokenize(value).and_then(|tokens| evaluate(tokens, context))`
+pub fn tokenize_and_evaluate(value: &str, context: &Ctx) -> (r: Result<ExprValue>)
+    ensures (match tokens_of(value@) { Some(t) => (match eval_tokens(t, *context) { Some(v) => r == Ok::<ExprValue, SvgdxError>(v), None => r is Err }), None => r is Err })
+{
+    match tokenize(value) { Ok(tokens) => evaluate(tokens, context), Err(e) => Err(e) }
+}
+/// R-abstract: the `{{ }}` stripping at the head of eval_condition
+#[verifier::external_body]
+pub fn strip_braces(value: &str) -> (r: Result<&str>)
+    ensures (match braces_stripped(value@) { Some(s) => r is Ok && r->Ok_0@ == s, None => r is Err })
+{ unimplemented!() }
+impl ExprValue {
+    #[verifier::external_body]
+    pub fn one_number(&self) -> (r: Result<R32>)
+        ensures (match num_of(*self) { Some(x) => r is Ok && val(r->Ok_0) == x, None => r is Err })
+    { unimplemented!() }
+    /// R-abstract: `.to_string().parse::<f32>()` of a value that is not a number
+    #[verifier::external_body]
+    pub fn render_and_parse(&self) -> core::result::Result<R32, ParseFloatError> { unimplemented!() }
+}
+
+//@rewrite f32 fmt
 //@item src/expression.rs :: fn eval_condition
-//@ fragment-name cond_truth
-//@ fragment-inner
-//@ fragment-from <<<        .parse::<f32>()\n        .map(|v| >>>
-//@ fragment-to <<<)\n        .map_err(>>>
-//@ fragment-head <<<fn cond_truth(v: f32) -> bool {>>>
-//@ fragment-tail <<<}>>>
+//@ replace[R-opaque-type] <<<context: &impl ContextView>>> => <<<context: &Ctx>>>
+//@ cut[R-abstract] <<<    let mut value = value;\n    if let Some(inner) = value.strip_prefix(EXPR_START) {>>> .. <<<            )))?;\n    }>>> => <<<    let value = strip_braces(value)?;>>>
+//@ replace[R-andthen] <<<tokenize(value).and_then(|tokens| evaluate(tokens, context))?>>> => <<<tokenize_and_evaluate(value, context)?>>>
+//@ replace[R-abstract] <<<    result\n        .to_string()\n        .parse::<f32>()>>> => <<<    result\n        .render_and_parse()>>>
+//@ replace[R-closure-param] <<<.map_err(|_| SvgdxError::ParseError(>>> => <<<.map_err(|_e| SvgdxError::ParseError(>>>
 //@ ensures
-//@ - r == (val(v) != 0real)     @@C16.cond.nonzero
+//@ - (match braces_stripped(value@) { Some(s) => (match tokens_of(s) { Some(t) => (match eval_tokens(t, *context) {
+//@       Some(v) => num_of(v) is Some ==> r == Ok::<bool, SvgdxError>(num_of(v)->Some_0 != 0real),
+//@       None => r is Err }), None => r is Err }), None => r is Err })     @@C16.cond.nonzero
 //@end
 
 } // verus!
